@@ -1601,7 +1601,10 @@ impl<'a, C: Crypto> TransportRunner<'a, C> {
                 }
                 Err(e) => {
                     error!("UNEXPECTED RX ERROR: {:?}", e);
-                    false
+
+                    // Back off: re-trying right away would find the very same dropped
+                    // exchange again and spin here without ever yielding
+                    true
                 }
             };
 
@@ -1986,18 +1989,27 @@ impl<'a, C: Crypto> TransportRunner<'a, C> {
                 // Ditto
                 let exchange = unwrap!(session.exchanges[exch_index].as_mut());
 
-                if exchange.mrp.is_ack_pending() {
+                let ack_result = if exchange.mrp.is_ack_pending() {
                     self.write_packet(
                         packet,
                         Some(session),
                         Some(exch_index),
                         false,
                         |_| Ok(Some(OpCode::MRPStandAloneAck.into())),
-                    )?;
-                }
+                    )
+                } else {
+                    Ok(())
+                };
 
+                // Close the exchange even if the ACK could not be generated, or else
+                // the exchange would be found - and fail - again and again
                 warn!("Dropped exchange {}: Closed", exchange_id.display(session));
                 session.exchanges[exch_index] = None;
+
+                if let Err(e) = ack_result {
+                    packet.buf.clear();
+                    Err(e)?;
+                }
             }
 
             Ok(exch.is_none())
